@@ -29,6 +29,10 @@ fn main() {
             s.gen("e2-random", s.n(400_000, 12_000_000), || e2::case(e2::W_C09), |c, cx| e2::check(c, Prop::C09, cx));
             let max_len = if s.quick() { 6 } else { 7 };
             s.enumerate("e2-small-scope", e2::small_cases(max_len, &[1, 2]), |c, cx| e2::check(&c.to_case(), Prop::C09, cx));
+            // the emitter built on the channel: emit never waits on a stalled filesystem, pending stays bounded
+            s.require("file-e2e-stall:more-events-than-capacity", 100);
+            s.require("file-e2e-stall:truncation-counted", 50);
+            s.gen("file-e2e-stalled-destination", s.n(2_000, 40_000), fsim::e2e::stall_case, |c, cx| fsim::e2e::check_never_blocks(c, cx));
             s.gen("file-batch-channel-laws", s.n(100_000, 3_000_000), fsim::e2e::batch_ops, |c, cx| fsim::e2e::check_batch_laws(c, cx));
             // the same workloads against a LIVE worker (few stalls): silent discards on the receiver's side
             // (idle path, hand-off) only show when the worker actually runs
